@@ -69,11 +69,23 @@ CopyClauses(e) ==
 MutateClauses(e) ==
   [ante |-> [C14_frame |-> TRUE, C19_quiet |-> TRUE], holds |-> [C14_frame |-> e.t1 = e.t0, C19_quiet |-> Quiet(e.res)]]
 
-StepClauses(e) == CASE e.op = "trip" -> TripClauses(e) [] e.op = "parse" -> ParseClauses(e)
+\* C16: every child subtree reads the same inside the parent's output as serialised alone (indentation aside)
+RECURSIVE SameSubtree(_, _)
+SameSubtree(x, y) ==
+  /\ x.n = y.n /\ x.a = y.a
+  /\ (IF AllWS(x.t) /\ AllWS(y.t) THEN TRUE ELSE x.t = y.t)
+  /\ Len(x.c) = Len(y.c) /\ \A i \in DOMAIN x.c : SameSubtree(x.c[i], y.c[i])
+NestedClauses(e) ==
+  LET ante == [C16_subtree |-> e.res.ok, C19_quiet |-> TRUE]
+  IN [ante |-> ante, holds |-> [
+   C16_subtree |-> ante.C16_subtree => (Len(e.inside) = Len(e.alone) /\ \A i \in DOMAIN e.inside : SameSubtree(e.inside[i], e.alone[i])),
+   C19_quiet   |-> Quiet(e.res) ]]
+
+StepClauses(e) == CASE e.op = "nested" -> NestedClauses(e) [] e.op = "trip" -> TripClauses(e) [] e.op = "parse" -> ParseClauses(e)
                     [] e.op = "deepcopy" -> CopyClauses(e) [] e.op = "mutate" -> MutateClauses(e)
 
 AllClauses == {"C08_reparse", "C08_trip", "C08_stable", "C09_accept", "C09_trip", "C09_noloss", "C14_copies", "C14_faithful",
-               "C14_unchanged", "C14_frame", "C19_class", "C19_quiet"}
+               "C14_unchanged", "C14_frame", "C16_subtree", "C19_class", "C19_quiet"}
 VARIABLES i, cnt
 Init == i = 1 /\ cnt = [n \in AllClauses |-> 0]
 Next == /\ i <= Len(Trace)
